@@ -33,6 +33,11 @@ Input classes (all inside the property's quantifier "all finite real sequences o
       (filter, resampling, smoothing, taper).  Without processing options the table must be the model's table of the samples
       inside the window (the sampling instants are irrelevant to ASTM E1049-85); with them, the table of what `get(**kwargs)`
       returns.  The K3 signals also come on such non-uniform grids.
+* K5  LONG records (sizes just below / at / above 1000, 1024, 4096, 10000 and beyond 65536 samples; zigzags with as many cycles
+      as samples, saws of equal ranges, quantised noise, walks) rebuilt from a few parameters (size, shape, seed, events), with
+      the largest swing, a peak, plateaus and range ties in the first / last few samples, exactly at multiples of 1000 / 1024 /
+      4096 / 10000 / 65536 and across them; dyadic values (exact arithmetic), every clause of K3 evaluated on them through
+      the functions (array / list), `TimeSeries.rfc` (plain / window shaving a few end samples) and `calculate_rfc`.
 An exception raised by the implementation, or a result that cannot be read as lists of pairs / an (n, 3) table, is a failing
 clause, never a harness crash.
 """
@@ -56,7 +61,9 @@ RULE = ("sequences: all words over {0,1,2,3} up to the tier's length x endpoints
         "non-uniform time grids (alternating / random steps, gaps, refined step, jitter) through TimeSeries.rfc, calculate_rfc "
         "(raw / re-binned, one or two series) and the data of TimeSeries / TsDB plot_cycle_range, with window / no-op / "
         "processing options, and arbitrary binary64 "
-        "signals (uniform and non-uniform grids) against an independent reference with tolerance; "
+        "signals (uniform and non-uniform grids) against an independent reference with tolerance; long records of 999..70001 "
+        "samples (around 1000 / 1024 / 4096 / 10000 / 65536) with the largest swing, peaks, plateaus, ties at the ends and at / across "
+        "block boundaries, exact values, independent reference; "
         "non-trivial = yields at least one cycle; distinct by (endpoints, sequence)")
 
 
@@ -994,7 +1001,93 @@ def float_times(n, dt, pattern):
     return np.concatenate([[0.0], np.cumsum(np.resize(np.array(pattern, dtype=float), n - 1))]) * dt
 
 
-def _rows_close(A, B, tol):
+# =============================================================================================================
+# K5: LONG records described by a few parameters (size- and position-conditioned code paths)
+# =============================================================================================================
+LONG_SIZES = (999, 1000, 1001, 1023, 1024, 1025, 4095, 4096, 4097, 9999, 10000, 10001, 65540, 70001)
+LONG_GROUPS = ((999, 1000, 1001, 1023, 1024, 1025), (4095, 4096, 4097), (9999, 10000, 10001), (65540, 70001))
+LONG_SHAPES = ("zigzag", "saw", "noise", "walk")
+LONG_VIAS = ("functions:ndarray", "functions:list", "ts.rfc", "ts.rfc:twin", "calculate_rfc", "functions:ndarray")
+LONG_BIG = 8192.0
+
+
+def long_boundaries(n):
+    """positions at which a blocked / chunked / thresholded implementation changes regime"""
+    bs = set()
+    for b in (1000, 1024, 4096, 10000, 65536):
+        bs.update(range(b, n - 3, b))
+    return sorted(bs)
+
+
+def long_signal(p):
+    """the record of a `long` case, rebuilt from its parameters: dyadic values of small magnitude (all float arithmetic of the
+    count is exact), the body drawn from numpy's seeded generator, then the events written over it:
+      swing   x[pos] = +BIG, x[pos+1] = -BIG   the largest cycle / the span, across pos|pos+1
+      peak    x[pos] = BIG/2                    a turning point exactly at pos
+      plateau x[pos-1] = x[pos] = x[pos+1]      equal samples across pos (a turning point that is a plateau, or none)
+      tie     x[pos..pos+3] = a, b, a, b        two equal successive ranges across pos (X == Y)"""
+    n, shape = int(p["n"]), p["shape"]
+    g = np.random.default_rng(int(p["seed"]))
+    i = np.arange(n)
+    sgn = np.where(i % 2 == 0, 1.0, -1.0)
+    if shape == "zigzag":                       # every interior sample is a turning point; ranges mostly distinct
+        x = sgn * g.integers(1, 60, n) * 0.5
+    elif shape == "saw":                        # every interior sample is a turning point; chains of equal ranges (X == Y)
+        x = sgn * 3.0 + g.choice([0.0, 0.0, 0.0, 1.0], n)
+    elif shape == "noise":                      # plateaus, ties, about two thirds of the samples are turning points
+        x = np.round(g.normal(0, 2, n))
+    else:                                       # walk: slopes and plateaus, few turning points
+        x = np.cumsum(g.integers(-2, 3, n)) * 0.5
+    for kind, pos in p.get("events", ()):
+        pos = int(pos) % n
+        if kind == "swing" and pos + 1 < n:
+            x[pos], x[pos + 1] = LONG_BIG, -LONG_BIG
+        elif kind == "peak":
+            x[pos] = LONG_BIG / 2
+        elif kind == "plateau" and 1 <= pos < n - 1:
+            x[pos - 1] = x[pos + 1] = x[pos]
+        elif kind == "tie" and pos + 3 < n:
+            x[pos:pos + 4] = [x[pos], x[pos] + 7.0, x[pos], x[pos] + 7.0]
+    return x * float(p.get("scale", 1.0)) + float(p.get("offset", 0.0))
+
+
+def gen_long(chk):
+    """long records of the sizes just below / at / above 1000, 1024, 4096, 10000 and beyond 65536, the interesting events in the
+    first / last few samples, exactly at multiples of 1000 / 1024 / 4096 / 10000 / 65536 and across them"""
+    rng = chk.rng
+    if chk.quick:
+        sizes = [rng.choice(gp) for gp in LONG_GROUPS]
+        shapes = ["zigzag"] + [rng.choice(LONG_SHAPES[1:]) for _ in range(3)]
+        rng.shuffle(shapes)
+        shapes[3] = "zigzag" if rng.random() < 0.7 else shapes[3]     # (beyond 65536 samples: usually beyond 32768 cycles too)
+    else:
+        sizes = list(LONG_SIZES) * 3
+        shapes = [LONG_SHAPES[k % 4] for k in range(len(sizes))]
+        rng.shuffle(shapes)
+    for k, (n, shape) in enumerate(zip(sizes, shapes)):
+        bs = long_boundaries(n)
+        via = LONG_VIAS[(k + rng.randrange(len(LONG_VIAS))) % len(LONG_VIAS)]
+        if n > 20000 and chk.quick:
+            via = rng.choice(["functions:ndarray", "ts.rfc"])
+        ep = rng.random() < 0.5 if via.startswith("functions") else False
+        near_end = [0, 1, 2, n - 4, n - 3, n - 2]
+        at_b = [b + d for b in bs for d in (-2, -1, 0, 1)] or near_end
+        ev = []
+        ev.append(["swing", rng.choice(near_end if k % 2 == 0 else at_b)])
+        ev.append(["peak", rng.choice([b + d for b in bs for d in (-1, 0)] + [1, n - 2])])
+        for _ in range(rng.randint(1, 3)):
+            ev.append(["plateau", rng.choice([b + d for b in bs for d in (-1, 0, 1)] + [1, n - 2])])
+        for _ in range(rng.randint(0, 2)):
+            ev.append(["tie", rng.choice([b + d for b in bs for d in (-3, -2, -1, 0)] + [0, n - 4])])
+        rng.shuffle(ev)
+        cut = rng.random() < 0.5
+        yield dict(kind="long", n=n, shape=shape, seed=rng.getrandbits(40), events=ev, scale=rng.choice([1.0, 1.0, 0.5, 8.0]),
+                   offset=rng.choice([0.0, 0.0, 100.0, -4096.0]), endpoints=ep, via=via, f=0.1,
+                   win=[rng.randrange(4), n - 1 - rng.randrange(4)] if cut else [0, n - 1], dt=rng.choice([1.0, 0.5]),
+                   pattern=None if via.startswith("functions") or k % 3 else [0.5, 0.5, 2.0])
+
+
+def _rows_close(A, B, tol, big=False):
     """multisets of tuples equal within tol in the first two entries (range, mean) and exactly in the others"""
     if len(A) != len(B):
         return False
@@ -1003,6 +1096,8 @@ def _rows_close(A, B, tol):
         return all(abs(u - v) <= tol for u, v in zip(a[:2], b[:2])) and tuple(a[2:]) == tuple(b[2:])
     if all(close(a, b) for a, b in zip(sorted(A), sorted(B))):
         return True
+    if big and len(A) > 3000:            # (exact long records: the sorted pairing is the comparison; no quadratic search)
+        return False
     rest = list(B)
     for a in A:
         hit = next((i for i, b in enumerate(rest) if close(a, b)), None)
@@ -1021,11 +1116,15 @@ def _diff(exp, got):
 
 def check_float(chk, c):
     from qats.fatigue import rainflow as rf
-    x = [core.unfbits(b) for b in c["bits"]]
+    is_long = c.get("kind") == "long"
     ep, via = c["endpoints"], c["via"]
     inp = dict(c)
-    chk.count("float:" + via)
+    chk.count(("long:" if is_long else "float:") + via)
+    if is_long:
+        chk.dist("long:n=%d" % c["n"])
+        chk.dist("long:shape=%s" % c["shape"])
     try:
+        x = [float(v) for v in long_signal(c)] if is_long else [core.unfbits(b) for b in c["bits"]]
         entry_tab, xin = None, x
         if via.startswith("functions"):
             def mk():
@@ -1062,9 +1161,12 @@ def check_float(chk, c):
         scale = max(abs(v) for v in xin) or 1.0
         tol = 1e-12 * scale
         rf_f = ref_all(list(xin), ep)
-        rf_e = ref_all([Fraction(v) for v in xin], ep)
-        robust = (len(rf_f["full"]) == len(rf_e["full"]) and len(rf_f["half"]) == len(rf_e["half"])
-                  and _rows_close(rf_f["table"], [tuple(float(v) for v in r) for r in rf_e["table"]], tol))
+        if is_long and exact_in_binary64(xin):
+            robust = True                    # dyadic values of small magnitude: float and exact arithmetic coincide
+        else:
+            rf_e = ref_all([Fraction(v) for v in xin], ep)
+            robust = (len(rf_f["full"]) == len(rf_e["full"]) and len(rf_f["half"]) == len(rf_e["half"])
+                      and _rows_close(rf_f["table"], [tuple(float(v) for v in r) for r in rf_e["table"]], tol, is_long))
         chk.dist("float-robust" if robust else "float-fragile(rounding decides a tie)")
         rev = [float(v) for v in rf.reversals(mk(), endpoints=ep)]
         full, half = rf.cycles(mk(), endpoints=ep)
@@ -1073,7 +1175,7 @@ def check_float(chk, c):
         shape = tuple(np.shape(tab_a))
         tab = [tuple(float(v) for v in row) for row in tab_a]
         if full or half:
-            chk.nontriv(("float", ep, tuple(c["bits"][:40]), len(x)))
+            chk.nontriv(("long", ep, c["n"], c["shape"], c["seed"]) if is_long else ("float", ep, tuple(c["bits"][:40]), len(x)))
         # -- clauses
         if rev != [float(v) for v in rf_f["rev"]]:
             chk.fail("counted points == turning points of the series (run-based reference), with its end points if asked", inp,
@@ -1095,8 +1197,8 @@ def check_float(chk, c):
                 chk.fail("largest range == span between highest and lowest counted point (1e-12 of the magnitude)", inp, span, top)
         elif tab:
             chk.fail("no cycle -> empty table", inp, 0, len(tab))
-        if robust and not (_rows_close(full, rf_f["full"], tol) and _rows_close(half, rf_f["half"], tol)
-                           and _rows_close(tab, rf_f["table"], tol)):
+        if robust and not (_rows_close(full, rf_f["full"], tol, is_long) and _rows_close(half, rf_f["half"], tol, is_long)
+                           and _rows_close(tab, rf_f["table"], tol, is_long)):
             chk.fail("counted cycles == ASTM E1049-85 5.4.4 on the turning points (independent reference, 1e-12 of the magnitude)",
                      inp, *_diff(rf_f["table"], tab))
         if entry_tab is not None:
@@ -1104,12 +1206,12 @@ def check_float(chk, c):
                 if tab:
                     chk.fail("calculate_rfc gives the ranges and counts of the window's table", inp, str(tab[:4]), entry_tab)
             elif via.startswith("calculate_rfc"):
-                if not _rows_close([(r, 0.0, c2) for r, c2 in entry_tab], [(r, 0.0, c2) for r, m, c2 in tab], tol):
+                if not _rows_close([(r, 0.0, c2) for r, c2 in entry_tab], [(r, 0.0, c2) for r, m, c2 in tab], tol, is_long):
                     chk.fail("calculate_rfc gives the ranges and counts of the window's table", inp,
                              *_diff([(r, c2) for r, m, c2 in tab], entry_tab))
-            elif not _rows_close(entry_tab, tab, tol):
+            elif not _rows_close(entry_tab, tab, tol, is_long):
                 chk.fail("TimeSeries.rfc(**kwargs) counts the series that get(**kwargs) returns", inp, *_diff(tab, entry_tab))
-            elif robust and not _rows_close(entry_tab, rf_f["table"], tol):
+            elif robust and not _rows_close(entry_tab, rf_f["table"], tol, is_long):
                 chk.fail("TimeSeries.rfc(**kwargs) == ASTM E1049-85 5.4.4 on the turning points of the series that get(**kwargs) "
                          "returns (independent reference, 1e-12 of the magnitude)", inp, *_diff(rf_f["table"], entry_tab))
     except Exception as e:
@@ -1472,7 +1574,7 @@ def run(chk):
             histories.append(c)
         elif c.get("kind") == "series":
             series.append(c)
-        elif c.get("kind") == "float":
+        elif c.get("kind") in ("float", "long"):
             floats.append(c)
         elif "as" in c:
             spelled.append(([Fraction(v) for v in c["series"]], bool(c["endpoints"]), c["as"], c.get("ep_as", "kw")))
@@ -1484,6 +1586,7 @@ def run(chk):
     spelled += list(gen_spellings(chk, cases[ncorpus:] or cases))
     histories += list(gen_histories(chk, cases))
     floats += list(gen_floats(chk))
+    floats += list(gen_long(chk))
     series += list(gen_series(chk, cases))
     # one batch of model requests: every K0 case, then what the spellings and histories need in addition
     index = {}
@@ -1563,7 +1666,7 @@ def replay(rp):
     inp = rp["input"]
     chk = core.Check("C02", "quick", 0)
     drv = core.Driver()
-    if isinstance(inp, dict) and inp.get("kind") == "float":
+    if isinstance(inp, dict) and inp.get("kind") in ("float", "long"):
         check_float(chk, inp)
     elif isinstance(inp, dict) and inp.get("kind") == "history":
         h = {k: v for k, v in inp.items() if k != "step"}
